@@ -234,6 +234,10 @@ func ruleR11(p *Prog) []Ob {
 		{
 			o := base
 			o.Inst, o.Props = "L3:"+label+":exits", props
+			if cl.fn.Name() == "Recover" {
+				// a recovery that cuts the head short of its valid records loses fsynced messages
+				o.Props = append(append([]string{}, props...), "C06")
+			}
 			bad := p.loopExits(cl, ea)
 			if len(bad) > 0 {
 				o.Status, o.Msg, o.Path = Violated, "the scan loop can be left other than at end of file, on a returned error, or (recover) at corruption: the remaining records are silently dropped or a hard error is mistaken for damage", bad
